@@ -2891,7 +2891,11 @@ class Builder(object):
                 if connective in ['at']:
                     # parse period direct or indirect
                     try:  #parse direct
-                        period = max(0.0, Convert2Num(tokens[index]))  # period is number
+                        period = Convert2Num(tokens[index])  # period is number
+                        if isinstance(period, complex):
+                            msg = "Error building {0}. Bad period = {1}.".format(command, period)
+                            raise excepting.ParseError(msg, tokens, index)
+                        period = max(0.0, period)
                         index += 1  # eat token
 
                     except ValueError:  # parse indirect
